@@ -76,6 +76,8 @@ def parse_how(data, how):
         for b in data:
             p.feed_byte(_BYTE_ENUM(b))
         return list(p)
+    if how == 'split':
+        return parse_split([data[:len(data) // 2], data[len(data) // 2:]])
     if how == 'bytewise-late':
         p = mido.Parser()
         for b in data:
@@ -84,13 +86,24 @@ def parse_how(data, how):
     return mido.parse_all(list(data))
 
 
-HOWS = ('list', 'bytes', 'generator', 'iter', 'bytewise', 'bytewise-late', 'intsub', 'enum')
+HOWS = ('list', 'bytes', 'generator', 'iter', 'bytewise', 'bytewise-late', 'intsub', 'enum', 'split')
+
+
+def parse_split(parts):
+    """One feed() call per part (the prefix and the message arrive separately, as they do from a device)."""
+    p = mido.Parser()
+    for i, part in enumerate(parts):
+        p.feed(bytes(part) if i % 2 else list(part))
+    return list(p)
 
 
 def check_prefix(prefix, d, how='list'):
     try:
         base = mido.parse_all(list(prefix))
-        got = parse_how(list(prefix) + R.ref_encode(d), how)
+        if how == 'split':
+            got = parse_split([list(prefix), R.ref_encode(d)])
+        else:
+            got = parse_how(list(prefix) + R.ref_encode(d), how)
         m = mk(d)
     except Exception as exc:  # noqa: BLE001
         return [fail('raises', f'prefix={prefix[:16]} msg={d}: {exc!r}', exc=exc_sig(exc))]
@@ -198,9 +211,12 @@ def check_grammar(segs, how='list'):
     built = build_grammar(segs)
     if built is None:
         return []
-    data, want_d, _ = built
+    data, want_d, bounds = built
     try:
-        got = parse_how(data, how)
+        if how == 'split':
+            got = parse_split([data[a:b] for a, b in zip([0] + bounds[:-1], bounds)])
+        else:
+            got = parse_how(data, how)
         want = [mk(d) for d in want_d]
     except Exception as exc:  # noqa: BLE001
         return [fail('raises', f'segments {segs}: {exc!r}', exc=exc_sig(exc))]
@@ -314,7 +330,7 @@ def grammar_shard(rec, shard):
                     segs = [['cut', d0, k], ['whole', d1]] + tail + [['whole', final]]
                     if build_grammar(segs) is None:
                         continue
-                    for how in ('list', 'bytewise'):
+                    for how in ('list', 'bytewise', 'split'):
                         rec.check({'kind': 'grammar', 'segs': segs, 'how': how}, sample=(k == 1 and t2 == 'tune_request'
                                                                                        and not tail and how == 'list'))
 
@@ -335,6 +351,7 @@ def block_shard(rec, shard):
                             if ch is not None:
                                 dd['channel'] = ch
                             rec.check({'kind': 'prefix', 'prefix': enc[:k], 'msg': dd}, sample=False)
+                            rec.check({'kind': 'prefix', 'prefix': enc[:k], 'msg': dd, 'how': 'split'}, sample=False)
     elif block == 'hows':
         # every way of handing the bytes over, for every type as the final message behind a few prefixes
         for t in R.ALL_TYPES:
